@@ -6,14 +6,18 @@ spec  : SysAlg.tla (abstract systems over Gaussian integers; operators named lik
         MC_SysAlgCreate (builder state machines), MC_SysAlgCorners; record validation SysAlgRec.tla
 bind  : spec -> code: every TLC state is replayed on the real classes and compared exactly with the specification's values;
         code -> spec: seeded random calls of the real code are projected to Gaussian integers and validated by TLC
+rules : systems are compared as functions R -> matrix (not as stored R-sets); every second case lives on a non-orthogonal lattice and
+        every fourth is two-dimensional; exceptions of the package inside a public call are violations `<site>:raises`, the harness's
+        own misuse of a private detail is a recorded skip; states are processed in a sorted order and sub-samples are drawn by a hash
 """
 import copy
 import os
 import random
+import traceback
 import warnings
 import numpy as np
 
-from .. import tlc, ftable
+from .. import ftable
 from ..common import Report, MachineryError, seed, quiet
 from . import _sysalg_world as W
 from . import _sysalg_ops as O
@@ -24,56 +28,70 @@ PROPS = {
     "C05": dict(level="model_checking", technique=_T,
                 text="State machine of Reorder / Rotate (exact unitaries among co-centred functions) over a catalogue of small exact systems: "
                      "H(k)' = P^T H(k) P resp. U^+ H(k) U, characteristic polynomial invariant, covariant Wannier-gauge derivative (centres/shifts "
-                     "permuted); every state replayed on System_R.reorder / a rotation of all R-matrices, evaluate_k and run() outputs compared before/after.",
-                note="numeric (1e-8, exact inputs): evaluate_k energies/Berry curvature and run() CumDOS/AHC before/after; numeric_only: random complex "
-                     "systems with AA and Haar-random unitaries among co-centred functions",
+                     "permuted); every state replayed on System_R.reorder / a rotation of all R-matrices (exact projection, H(k), spectrum, derivative "
+                     "before/after, also 2-D systems, a non-orthogonal lattice, wannier_names); evaluate_k on a hash-drawn sub-sample of the states "
+                     "(quick ~1/15, thorough ~1/40), run() on the first 3 (quick) / 24 (thorough) of them.",
+                note="numeric (1e-8 relative, exact inputs): evaluate_k energies/Berry curvature and run() CumDOS/AHC before/after; deciding numeric part "
+                     "(1e-6 relative, observed 1e-13): random complex systems with AA, Haar-random unitaries among co-centred functions AND a random "
+                     "reordering: evaluate_k energy / Berry curvature with external terms / band gradients, run() CumDOS, DOS, AHC (external terms), "
+                     "Ohmic_FermiSea",
                 ref="DESIGN.md 3.4, row C05"),
     "C25": dict(level="model_checking", technique=_T,
-                text="DoubleSpin (interlaced Kronecker product, every band twice), MakeSOC (characteristic polynomial = product of the up and down ones, "
-                     "equal or different R-sets), SetSOC/ToPlainR (same H(k) at every k), rotated Pauli matrices for all axes with angles in multiples of "
-                     "pi/2 (Pauli algebra, spin along the axis = diag(1,-1), half-angle matrix unitary, exact in Z[zeta8]); replay on double_spin, SystemSOC, "
-                     "Data_K_soc.HH_K, set_soc_axis, get_system_R, SOC.get_C_ss/get_pauli_rotated.",
-                note="numeric_only: arbitrary angles (Pauli algebra to 1e-12), random real-valued SOC-free up/down systems (union of spectra)",
+                text="DoubleSpin (every band twice; the pairing is read from the code's SS, any order of the doubled functions is accepted), MakeSOC "
+                     "with two spin channels and with one (SystemSOC(up)) (characteristic polynomial = product of the up and down ones, equal or "
+                     "different R-sets), SetSOC/ToPlainR (same H(k) at every k, with and without SOC terms), rotated Pauli matrices for all axes with "
+                     "angles in multiples of pi/2: the CODE's matrices must obey the Pauli algebra and have the spin along the axis = diag(1,-1) "
+                     "(decided by TLC on the recorded matrices); equality with the specification's choice is information only. Replay on double_spin, "
+                     "SystemSOC, Data_K_soc.HH_K, set_soc_axis (radians and degrees), get_system_R, SOC.get_pauli_rotated.",
+                note="numeric (deciding, 1e-9): arbitrary angles (Pauli algebra), random real-valued SOC-free up/down systems (union of spectra), random "
+                     "angles / non-integer alpha_soc / non-trivial overlap_up_down: Data_K_soc.HH_K = H(k) of get_system_R(), Ham_SOC linear in alpha, SS blocks",
                 ref="DESIGN.md 3.4, row C25"),
     "C26": dict(level="model_checking", technique=_T,
                 text="Interpolate(s0, s1, a/den) with R-set union and matrix-set intersection: endpoints reproduce s0 / s1 at every k (Ham and the second "
-                     "matrix), affine in alpha, centres affine; replay on SystemInterpolator.interpolate with exact projection of matrices, "
-                     "wannier_centers and rvec shifts.",
-                note="alpha in {0, 1/2, 1} (thorough also quarters) with dyadic data; numeric_only: random alpha affinity",
+                     "matrix), affine in alpha (also a = -1 and a = den + 1), centres affine and in force in the derivative of H(k); replay on "
+                     "SystemInterpolator.interpolate (use_pointgroup 1/0/-1, second call of the same interpolator after spoiling the first result, inputs "
+                     "unchanged) with exact projection; SystemInterpolatorSOC through recorded calls validated by TLC.",
+                note="alpha in {0, 1/2, 1} (+ -1/2, 3/2; thorough also quarters) with dyadic data; numeric (deciding, 1e-9): random alpha with different "
+                     "centres: H(k), centres, derivative",
                 ref="DESIGN.md 3.4, row C26"),
     "C32": dict(level="model_checking", technique=_T,
                 text="PythTB (set_onsite/set_hop, set/add modes, refusals, spinful blocks) and TBmodels (constructor on_site, add_hop, add_on_site; halved "
-                     "R=0 storage, positive-R keys) builders as state machines, import get_system_tb_py transcribed; import = source Hamiltonian, both libraries "
-                     "agree on the same hoppings, Haldane_ptb = Haldane_tbm over a parameter grid; every state replayed on the real libraries and from_pythtb / from_tbmodels.",
-                note="numeric (1e-8): energies of the imported system vs the source model's own solver; bundled builders compared over the parameter grid in units of 0.2",
+                     "R=0 storage, positive-R keys) builders as state machines, import get_system_tb_py transcribed; import = source Hamiltonian (as a "
+                     "function of R, centres modulo lattice vectors), both libraries agree on the same hoppings, Haldane_ptb = Haldane_tbm over a parameter "
+                     "grid; every state replayed on the real libraries and from_pythtb / from_tbmodels (2-D models, orthogonal and skew cells).",
+                note="numeric (deciding, 1e-8): energies of the imported system vs the source model's own solver (Data_K_R on 5 k-points and one evaluate_k "
+                     "call per case); all bundled PythTB builders (1-D, 2-D, 3-D, spinful), a PythTB model with a non-periodic direction, 1-D and 3-D "
+                     "TBmodels models",
                 ref="DESIGN.md 3.4, row C32"),
     "C33": dict(level="model_checking", technique=_T,
-                text="Corner Hamiltonians of E_K_corners_parallel / E_K_corners_tetra transcribed for real-space, spin-orbit (up/down R-sets equal or different) "
-                     "and k.p systems; TLC checks that they are the Hamiltonians at the corner k-points; every state replayed on Data_K_R / Data_K_soc / Data_K_k "
-                     "(also phonon-flagged), corner energies compared with the eigenvalues of the specification's exact matrices and with direct evaluation.",
-                note="eigenvalues are compared as sorted spectra (1e-8; stable also at degeneracies); records carry the integer characteristic polynomials of the code's corner spectra",
+                text="Corner Hamiltonians of E_K_corners_parallel / E_K_corners_tetra transcribed for real-space, spin-orbit (one or two spin channels, "
+                     "up/down R-sets equal or different) and k.p systems; TLC checks that they are the Hamiltonians at the corner k-points; every state "
+                     "replayed once on Data_K_R / Data_K_soc / Data_K_k, corner energies compared with the eigenvalues of the specification's exact matrices "
+                     "and with the class's own evaluation at the corner k-points; a 1/7 sub-sample of the real-space states also phonon-flagged "
+                     "(squared frequencies compared) and with an energy window that cuts one band.",
+                note="eigenvalues are compared as sorted spectra (1e-8; stable also at degeneracies); records carry the integer characteristic polynomials of "
+                     "the code's corner spectra; numeric (deciding, 1e-8): NKFFT = 3 grids, k.p systems with Cartesian k on a non-cubic cell",
                 ref="DESIGN.md 3.4, row C33"),
 }
 
 
-LEVI = np.zeros((3, 3, 3))
-LEVI[0, 1, 2] = LEVI[1, 2, 0] = LEVI[2, 0, 1] = 1
-LEVI[0, 2, 1] = LEVI[2, 1, 0] = LEVI[1, 0, 2] = -1
-
-
 def _workers(thorough):
-    return 16
+    return O.TLC_WORKERS
+
+
+def _drawn(s, every, salt="sample"):
+    return W.stable_hash((salt, s["base"], s["hist"])) % every == 0
 
 
 def _replay_all(rep, st, pid, tag, classes, sample_every=None, on_sample=None):
     n = 0
     counts = {}
-    for s in ftable.dump_states(st):
+    for s in O.sorted_states(st, O.state_key):
         n += 1
         last = s["hist"][-1]["op"] if s["hist"] else "base"
         counts[last] = counts.get(last, 0) + 1
         real = O.replay_state(rep, s, pid, tag)
-        if on_sample is not None and real is not None and s["hist"] and counts[last] % sample_every == 1:
+        if on_sample is not None and real is not None and s["hist"] and (counts[last] == 1 or _drawn(s, sample_every)):
             on_sample(s, real)
         if s["hist"] and counts[last] == 1:
             rep.sample(dict(config=tag, base=O._js(s["base"]), hist=O._js(s["hist"]), expected=O._js(s["cur"]) if s["kind"] == "R" else "SOC"))
@@ -88,20 +106,31 @@ def _replay_all(rep, st, pid, tag, classes, sample_every=None, on_sample=None):
 
 def _validate(rep, recs, name, site_of):
     if not recs:
+        if rep.violations:
+            rep.part(name + "_records", note="no record could be made: every recorded call failed (see the violations)")
+            return {}
         raise MachineryError(f"{name}: no records")
-    stv, bad = ftable.validate_records("SysAlgRec.tla", ftable.REC_CFG, recs, name, timeout=1700)
+    stv, bad = O.validate_records("SysAlgRec.tla", ftable.REC_CFG, recs, name, timeout=1700)
     rep.add_tlc(name + "_records", stv)
     rep.add_traces(len(recs))
     for i, clauses in bad.items():
-        rep.violation(f"{site_of(recs[i])}:recorded", dict(record=recs[i], failing_clauses=clauses))
+        info = [c for c in clauses if c.startswith("info_")]
+        hard = [c for c in clauses if not c.startswith("info_")]
+        for c in info:
+            O._bump(rep, "information_clauses_false", f"{recs[i]['fn']}.{c}")
+        if hard:
+            rep.violation(f"{site_of(recs[i])}:recorded", dict(record=recs[i], failing_clauses=hard))
     rep.sample(dict(record=recs[0]["fn"], example={k: v for k, v in recs[0].items() if k in ("fn", "p", "a", "den", "m", "n")}))
     return bad
 
 
 def _selftest(rep, rec, mutate, name, expect_clause=None):
+    if rec is None:
+        rep.part("binding_selftest_" + name, skipped="the record for the self-test could not be made (see the violations)")
+        return
     bad = copy.deepcopy(rec)
     mutate(bad)
-    _, b2 = ftable.validate_records("SysAlgRec.tla", ftable.REC_CFG, [bad], name + "_selftest")
+    _, b2 = O.validate_records("SysAlgRec.tla", ftable.REC_CFG, [bad], name + "_selftest")
     if 0 not in b2 or (expect_clause and expect_clause not in b2[0]):
         raise MachineryError(f"binding self-test failed ({name}): corrupted record accepted ({b2})")
     rep.part("binding_selftest_" + name, corrupted_record_rejected=b2[0])
@@ -111,36 +140,65 @@ def _flip(mat_entry):
     mat_entry[0] += 1
 
 
+def _fixed_sys(k, **kw):
+    """a system that does not depend on VERIF_SEED (for the binding self-tests)"""
+    return RND.rand_sys(random.Random(1000 + k), **kw)
+
+
+def _try_record(rep, key, detail, fn, *a, **k):
+    """a recorded call: -> result or None after reporting (package raised: `<key>:raises`; not integral: `<key>:non-integral`)"""
+    try:
+        ok, val = W.guarded(rep, key, detail, fn, *a, **k)
+    except RND.PauliNotExact as ex:
+        O._bump(rep, "records_skipped_pauli_choice_not_exact", key)
+        return None
+    except W.NonIntegral as ex:
+        rep.violation(f"{key}:non-integral", dict(detail, error=str(ex)))
+        return None
+    return val if ok else None
+
+
 # =================================================================================================== C05
 def check_c05(rep, thorough):
     rng = random.Random(seed() * 7919 + 5)
     w = _workers(thorough)
     rep.rule("TLC enumerates base systems (nw Wannier functions, hops with amplitudes in {1,-1,i} on R within +-1 in 1-2 directions, on-site "
              "energies, centres in twelfths, optional second matrix) and sequences of Reorder / Rotate; a case = one TLC state (base + operation "
-             "history) replayed on the real code with exact comparison of the projection, H(k), dH(k), spectrum; plus seeded random recorded calls "
-             "validated by TLC; distinct by (base, history) / record input")
+             "history) replayed on the real code with exact comparison of the projection, H(k), dH(k) before/after, spectrum; the lattice "
+             "(identity / non-orthogonal), the periodicity (3-D / 2-D) and wannier_names are chosen by a hash of the case; plus seeded random "
+             "recorded calls validated by TLC; distinct by (base, history) / record input")
     rep.assume("amplitudes are Gaussian integers and k-points quarters of reciprocal lattice vectors, so H(k) is exactly representable; "
-               "R-vectors within +-1 per direction: agreement on three quarter points per direction is agreement at every k")
+               "TLC states have R-vectors within +-1 per direction: agreement on three quarter points per direction is agreement at every k. "
+               "Records may have R = +-2, which alias on the quarter grid: for them only the exact equality of the matrices (equals_spec) decides")
     numeric = dict(evaluate_k=0, run=0, maxdev=0.0)
+    nrun = 24 if thorough else 3
 
     def on_sample(s, real):
-        base = W.build(W.sys_from_tla(s["base"]))
-        a, b = O.observe(base), O.observe(real)
+        var = W.variant_of((s["base"], s["hist"]))
+        site = O.OP_SITE[s["hist"][-1]["op"]]
+        detail = dict(base=O._js(s["base"]), hist=O._js(s["hist"]), k=O.GENERIC_K)
+        base = W.build(W.sys_from_tla(s["base"]), periodic=var["periodic"], lattice=var["lattice"])
+        ok, ab = W.guarded(rep, f"{site}:evaluate_k", detail, lambda: (O.observe(base), O.observe(real)))
+        if not ok:
+            return
+        a, b = ab
         dev, what = O.compare_observations(a, b, 1e-8)
         numeric["evaluate_k"] += 1
         numeric["maxdev"] = max(numeric["maxdev"], dev)
-        rep.case(("evaluate_k", repr(s["base"]), repr(s["hist"])))
+        rep.case(("evaluate_k", O.state_key(s)))
         if dev > 1e-8:
-            rep.violation(f"{O.OP_SITE[s['hist'][-1]['op']]}:evaluate_k", dict(base=O._js(s["base"]), hist=O._js(s["hist"]), k=O.GENERIC_K, compared=what, deviation=dev,
-                                                                              before={k: v.tolist() for k, v in a.items()}, after={k: v.tolist() for k, v in b.items()}))
-        if numeric["run"] < (24 if thorough else 3) and real.num_wann > 1:
-            ra, rb = O.run_integrated(base), O.run_integrated(real)
-            d2 = max(float(np.max(np.abs(ra[k] - rb[k]))) for k in ra)
+            rep.violation(f"{site}:evaluate_k", dict(detail, compared=what, deviation=dev,
+                                                    before={k: v.tolist() for k, v in a.items()}, after={k: v.tolist() for k, v in b.items()}))
+        if numeric["run"] < nrun and real.num_wann > 1:
+            ok, rr = W.guarded(rep, f"{site}:run", detail, lambda: (O.run_integrated(base), O.run_integrated(real)))
+            if not ok:
+                return
+            d2 = O.rel_dev(*rr)
             numeric["run"] += 1
             numeric["maxdev"] = max(numeric["maxdev"], d2)
-            rep.case(("run", repr(s["base"]), repr(s["hist"])))
+            rep.case(("run", O.state_key(s)))
             if d2 > 1e-8:
-                rep.violation(f"{O.OP_SITE[s['hist'][-1]['op']]}:run", dict(base=O._js(s["base"]), hist=O._js(s["hist"]), deviation=d2))
+                rep.violation(f"{site}:run", dict(detail, relative_deviation=d2))
 
     if thorough:
         cfgs = [("c05_reorder", ["Reorder"], dict(OPS='{"Reorder"}', NWS="{1, 2, 3}", MAXHOPS=1, NEPS=2, NCEN=2, WITHX="{FALSE, TRUE}"), 40),
@@ -149,45 +207,50 @@ def check_c05(rep, thorough):
                 ("c05_rotate_3", ["Rotate"], dict(OPS='{"Rotate"}', NWS="{3}", KDIRS=1, MAXHOPS=1, NEPS=1, NCEN=2, PHS="{0, 1}"), 60),
                 ("c05_chain", ["Reorder", "Rotate"], dict(OPS='{"Reorder", "Rotate"}', MAXLEN=2, NWS="{2}", KDIRS=2, MAXHOPS=1, NEPS=1, NCEN=1, PHS="{1, 2}"), 80)]
     else:
-        cfgs = [("c05_reorder", ["Reorder"], dict(OPS='{"Reorder"}', NWS="{1, 2}", MAXHOPS=1, NEPS=1, NCEN=2, WITHX="{FALSE, TRUE}"), 25),
-                ("c05_rotate", ["Rotate"], dict(OPS='{"Rotate"}', NWS="{2}", MAXHOPS=1, NEPS=1, NCEN=3, PHS="{0, 1}", WITHX="{FALSE}"), 30),
-                ("c05_chain", ["Reorder", "Rotate"], dict(OPS='{"Reorder", "Rotate"}', MAXLEN=2, NWS="{2}", KDIRS=1, MAXHOPS=1, NEPS=1, NCEN=1, PHS="{1}"), 40)]
+        cfgs = [("c05_reorder", ["Reorder"], dict(OPS='{"Reorder"}', NWS="{1, 2}", MAXHOPS=1, NEPS=1, NCEN=2, WITHX="{FALSE, TRUE}"), 15),
+                ("c05_chain", ["Reorder", "Rotate"], dict(OPS='{"Reorder", "Rotate"}', MAXLEN=2, NWS="{2}", KDIRS=1, MAXHOPS=1, NEPS=1, NCEN=2, PHS="{0, 1}"), 15)]
     for name, classes, kw, every in cfgs:
         st = O.run_ops(rep, name, w, **kw)
         if st is None:
             continue
         _replay_all(rep, st, "C05", name, ["base"] + classes, sample_every=every, on_sample=on_sample)
-    O.sensitivity(rep, "c05_reorder_keepcentres", "LawReorder", w, OPS='{"Reorder"}', NWS="{2}", Variant='"keepcentres"')
-    O.sensitivity(rep, "c05_rotate_not_cocentred", "LawRotate", w, OPS='{"Rotate"}', NWS="{2}", NCEN=2, Variant='"anyU"')
-    if numeric["evaluate_k"] == 0:
+    O.sensitivity(rep, "c05_reorder_keepcentres", "LawReorder", w, OPS='{"Reorder"}', NWS="{2}", NEPS=1, Variant='"keepcentres"')
+    O.sensitivity(rep, "c05_rotate_not_cocentred", "LawRotate", w, OPS='{"Rotate"}', NWS="{2}", NEPS=1, NCEN=2, Variant='"anyU"')
+    if numeric["evaluate_k"] == 0 and not rep.violations:
         raise MachineryError("no evaluate_k comparison was made")
     rep.part("numeric_exact_inputs", **numeric, tolerance=1e-8)
 
     # ---- code -> spec
     recs = []
-    nrec = 400 if thorough else 24
+    nrec = 400 if thorough else 12
     for i in range(nrec):
         a = RND.rand_sys(rng, rmax=rng.choice([1, 1, 2]), nw=rng.choice([2, 3, 3]))
-        try:
-            rec, views, out = (RND.rec_reorder if i % 2 == 0 else RND.rec_rotate)(rng, a)
-        except W.NonIntegral as ex:
-            rep.violation("System_R.reorder:non-integral" if i % 2 == 0 else "rotate_all_R_matrices:non-integral", dict(sys=W.sys_json(a), error=str(ex)))
+        var = W.variant_of(("c05rec", i))
+        fn, key = (RND.rec_reorder, "System_R.reorder") if i % 2 == 0 else (RND.rec_rotate, "rotate_all_R_matrices")
+        val = _try_record(rep, key, dict(sys=W.sys_json(a), index=i), fn, rng, a, var=var)
+        if val is None:
             continue
-        dv = W.diff_views(out["cen"], views)
+        rec, views, out = val
+        dv = W.diff_views(out["cen"], views, only=("cen_red",))
         if dv:
-            rep.violation("System_R.reorder:shifts", dict(record=rec, differences=dv))
+            rep.violation(f"{key}:shifts", dict(record=rec, differences=dv))
         recs.append(rec)
         rep.case(("rec", rec["fn"], i, repr(rec["sys"]), repr(rec.get("p", rec.get("U")))))
     _validate(rep, recs, "c05", lambda r: "System_R.reorder" if r["fn"] == "reorder" else "rotate_all_R_matrices")
-    r0 = next(r for r in recs if r["fn"] == "reorder" and r["p"] != sorted(r["p"]))
-    _selftest(rep, r0, lambda r: r["out"]["cen"].reverse() if r["out"]["cen"][0] != r["out"]["cen"][-1] else _flip(r["out"]["H"][0][0][0]), "c05", None)
+    v0 = _try_record(rep, "System_R.reorder", dict(selftest=True), RND.rec_reorder, rng, _fixed_sys(5, nw=3, cen_choices=(0, 3, 4)), p=[2, 0, 1])
 
-    # ---- numeric only: random complex systems with AA, Haar-random unitaries among co-centred functions
+    def spoil(r):
+        r["out"]["cen"][0][0] += 1
+    _selftest(rep, None if v0 is None else v0[0], spoil, "c05", "equals_spec")
+
+    # ---- deciding numeric part: random complex systems with AA; Haar-random unitaries among co-centred functions, random reordering
     from scipy.stats import unitary_group
     nprng = np.random.RandomState(seed() + 505)
-    nn, maxdev = (40 if thorough else 6), 0.0
-    for _ in range(nn):
+    nn, maxdev, maxrun, nruns = (40 if thorough else 6), 0.0, 0.0, (10 if thorough else 2)
+    q = ("energy", "berry_curvature", "band_gradients")
+    for it in range(nn):
         a = RND.rand_sys(rng, nw=3, rmax=1, with_x=True, cen_choices=(0, 4))
+        var = W.variant_of(("c05num", it))
         for R in a["rs"]:
             mR = tuple(-x for x in R)
             if R >= (0, 0, 0):
@@ -195,24 +258,48 @@ def check_c05(rep, thorough):
                 a["H"][R] = a["H"][R] + (noise + noise.conj().T if R == (0, 0, 0) else noise)
                 if R != (0, 0, 0):
                     a["H"][mR] = a["H"][R].conj().T
-        s0 = W.build(a)
+        bkw = dict(periodic=var["periodic"], lattice=var["lattice"])
+        s0 = W.build(a, **bkw)
         U = np.zeros((3, 3), dtype=complex)
         groups = {}
         for i in range(3):
             groups.setdefault(tuple(a["cen"][i]), []).append(i)
         for idx in groups.values():
             U[np.ix_(idx, idx)] = unitary_group.rvs(len(idx), random_state=nprng) if len(idx) > 1 else np.exp(1j * nprng.rand())
-        s1 = W.op_rotate(W.build(a), U)
-        q = ("energy", "berry_curvature")
-        oa, ob = O.observe(s0, quantities=q), O.observe(s1, quantities=q)
-        dev, _ = O.compare_observations(oa, ob, 1e-7)
-        maxdev = max(maxdev, dev)
-        if dev > 1e-6:
-            rep.violation("rotate_all_R_matrices:evaluate_k:numeric", dict(sys=W.sys_json(a), deviation=dev))
-    rep.part("numeric_only", random_unitary_cases=nn, max_deviation=maxdev, tolerance=1e-6)
-    import shutil
-    from ..common import WORK
-    shutil.rmtree(os.path.join(WORK, "sysalg_run"), ignore_errors=True)          # files written by run()
+        perm = list(nprng.permutation(3))
+        detail = dict(sys=W.sys_json(a), permutation=[int(x) for x in perm], lattice=var["lattice"].tolist())
+
+        def transformed(rotate, reorder):
+            s = W.build(a, **bkw)
+            if rotate:
+                W.op_rotate(s, U)
+            if reorder:
+                with quiet():
+                    s.reorder(perm)
+            return s
+        for what, rot, reo in (("rotate_all_R_matrices", True, False), ("System_R.reorder", False, True), ("System_R.reorder", True, True)):
+            ok, s1 = W.guarded(rep, f"{what}:numeric", detail, transformed, rot, reo)
+            if not ok:
+                continue
+            ok, obs = W.guarded(rep, f"{what}:evaluate_k:numeric", detail, lambda: (O.observe(s0, quantities=q), O.observe(s1, quantities=q)))
+            if not ok:
+                continue
+            dev, _ = O.compare_observations(obs[0], obs[1], 1e-7)
+            maxdev = max(maxdev, dev)
+            rep.case(("num", it, rot, reo))
+            if dev > 1e-6:
+                rep.violation(f"{what}:evaluate_k:numeric", dict(detail, rotated=rot, reordered=reo, relative_deviation=dev))
+            if rot and reo and it < nruns:
+                ok, rr = W.guarded(rep, f"{what}:run:numeric", detail,
+                                   lambda: (O.run_integrated(s0, external=True, more=True), O.run_integrated(s1, external=True, more=True)))
+                if ok:
+                    d2 = O.rel_dev(*rr)
+                    maxrun = max(maxrun, d2)
+                    if d2 > 1e-6:
+                        rep.violation(f"{what}:run:numeric", dict(detail, relative_deviation=d2,
+                                                                 outputs={k: float(np.max(np.abs(rr[0][k] - rr[1][k]))) for k in rr[0]}))
+    rep.part("numeric_deciding", random_cases=nn, max_relative_deviation_evaluate_k=maxdev, run_cases=min(nn, nruns),
+             max_relative_deviation_run=maxrun, tolerance=1e-6)
     return rep.finish()
 
 
@@ -220,63 +307,88 @@ def check_c05(rep, thorough):
 def check_c25(rep, thorough):
     rng = random.Random(seed() * 7919 + 25)
     w = _workers(thorough)
-    rep.rule("TLC enumerates base systems and the operation sequences DoubleSpin[, Reorder] and MakeSOC(partner)[, SetSOC(SOC data, axis, alpha)"
-             "[, ToPlainR]], and all 64 axes (theta, phi in multiples of pi/2 over the 4 pi period); a case = one TLC state replayed on the real code "
-             "(exact projection, H(k) of Data_K_R / Data_K_soc, Ham_SOC, SS, spectrum); plus seeded random recorded calls validated by TLC")
-    rep.assume("the SOC real-space matrices (dV_soc_wann_*, overlap_up_down) are put directly into SystemSOC with small Gaussian integers and the identity "
-               "overlap; only set_soc_axis / get_system_R / Data_K_soc are exercised, not set_soc_R (needs ab-initio files)")
+    rep.rule("TLC enumerates base systems and the operation sequences DoubleSpin[, Reorder] and MakeSOC(partner | one spin channel)[, SetSOC(SOC "
+             "data, axis, alpha)][, ToPlainR], and all 64 axes (theta, phi in multiples of pi/2 over the 4 pi period); a case = one TLC state "
+             "replayed on the real code (exact projection, H(k) of Data_K_R / Data_K_soc, Ham_SOC, SS, spectrum); plus seeded random recorded "
+             "calls validated by TLC")
+    rep.assume("the SOC real-space matrices (dV_soc_wann_*, overlap_up_down) are put directly into SystemSOC with small Gaussian integers; only "
+               "set_soc_axis / get_system_R / Data_K_soc are exercised, not set_soc_R (needs ab-initio files); Data_K_soc.Xbar is not exercised "
+               "(the statement is about spectra and H(k)); the spinor flag of the results is reported, not required")
     numeric = dict(evaluate_k=0, maxdev=0.0)
 
     def on_sample(s, real):
-        if s["hist"][-1]["op"] != "DoubleSpin" or len(s["hist"]) != 1:
+        ops = [h["op"] for h in s["hist"]]
+        var = W.variant_of((s["base"], s["hist"]))
+        detail = dict(base=O._js(s["base"]), hist=O._js(s["hist"]))
+        if ops == ["DoubleSpin"]:
+            base = W.build(W.sys_from_tla(s["base"]), periodic=var["periodic"], lattice=var["lattice"])
+            ok, ab = W.guarded(rep, "System_R.double_spin:evaluate_k", detail, lambda: (O.observe(base), O.observe(real)))
+            mult, key = 2, "System_R.double_spin:evaluate_k"
+        elif ops == ["DoubleSpin", "Reorder"]:
+            qs = ("energy", "berry_curvature_internal_terms", "spin")
+
+            def both():
+                _, before, _ = O.apply_hist(s, var, hist=s["hist"][:-1])
+                return O.observe(before, quantities=qs), O.observe(real, quantities=qs)
+            ok, ab = W.guarded(rep, "System_R.reorder:evaluate_k", detail, both)
+            mult, key = 1, "System_R.reorder:evaluate_k"
+        else:
             return
-        base = W.build(W.sys_from_tla(s["base"]))
-        a, b = O.observe(base), O.observe(real)
-        dev, what = O.compare_observations(a, b, 1e-8, mult=2)
+        if not ok:
+            return
+        dev, what = O.compare_observations(ab[0], ab[1], 1e-8, mult=mult)
         numeric["evaluate_k"] += 1
         numeric["maxdev"] = max(numeric["maxdev"], dev)
         if dev > 1e-8:
-            rep.violation("System_R.double_spin:evaluate_k", dict(base=O._js(s["base"]), compared=what, deviation=dev))
+            rep.violation(key, dict(detail, compared=what, deviation=dev))
 
     st = O.run_ops(rep, "c25_double", w, OPS='{"DoubleSpin", "Reorder"}', MAXLEN=2, NWS="{1, 2}" if thorough else "{1}", MAXHOPS=1,
-                   WITHX="{FALSE, TRUE}", NEPS=2, NCEN=2)
+                   WITHX="{FALSE, TRUE}", NEPS=2 if thorough else 1, NCEN=2)
     if st:
         _replay_all(rep, st, "C25", "c25_double", ["base", "DoubleSpin", "Reorder"], sample_every=10, on_sample=on_sample)
-    socs = [("c25_soc", dict(NWS="{1}", MAXHOPS=1, KDIRS=2, ANGM="{1, 3}", ANGN="{0, 1, 2}", ALS="{2}")),
-            ("c25_soc_2", dict(NWS="{2}", MAXHOPS=0, KDIRS=1, ANGM="{1}", ANGN="{0, 1}", ALS="{1}"))] if thorough else \
-           [("c25_soc", dict(NWS="{1}", MAXHOPS=1, KDIRS=1, ANGM="{1}", ANGN="{1}", ALS="{1}"))]
+    socs = [("c25_soc", dict(NWS="{1}", MAXHOPS=1, KDIRS=2, ANGM="{1, 3}", ANGN="{0, 1, 2}", ALS="{2}", NSPINS="{1, 2}")),
+            ("c25_soc_2", dict(NWS="{2}", MAXHOPS=0, KDIRS=1, ANGM="{1}", ANGN="{0, 1}", ALS="{1}", NSPINS="{1, 2}"))] if thorough else \
+           [("c25_soc", dict(NWS="{1}", MAXHOPS=0, KDIRS=1, ANGM="{1}", ANGN="{1}", ALS="{1}", NSPINS="{1, 2}"))]
     for name, kw in socs:
         st = O.run_ops(rep, name, w, OPS='{"MakeSOC", "SetSOC", "ToPlainR"}', MAXLEN=3, NEPS=1, NCEN=1, MAXSOC=1, **kw)
         if st:
             _replay_all(rep, st, "C25", name, ["MakeSOC", "SetSOC", "ToPlainR"])
-    O.sensitivity(rep, "c25_double_block_order", "LawDoubleSpin", w, OPS='{"DoubleSpin"}', NWS="{2}", Variant='"blockspin"')
+    O.sensitivity(rep, "c25_double_block_order", "LawDoubleSpin", w, OPS='{"DoubleSpin"}', NWS="{2}", NEPS=1, Variant='"blockspin"')
 
-    # ---- Pauli algebra, all axes
+    # ---- Pauli algebra, all axes: the specification's choice is checked by TLC; the CODE's matrices must be a valid choice
     inv = ["HalfAngleUnitary", "RotatedExact", "RotatedPauliAlgebra", "SpinAlongAxis", "AxisIsUnit", "RotatedIsVectorRotation"]
     pcfg = lambda invs: "SPECIFICATION Spec\nCONSTANTS\n  MMAX = 7\n" + "".join(f"INVARIANT {i}\n" for i in invs) + "CHECK_DEADLOCK FALSE\n"
-    st = O.enumerate_states("MC_SysAlgPauli.tla", pcfg(inv), "c25_pauli", workers=4)
+    st = O.enumerate_states("MC_SysAlgPauli.tla", pcfg(inv), "c25_pauli", workers=2)
     if not ftable.spec_violation(rep, st, "c25_pauli"):
         rep.add_tlc("c25_pauli", st)
         from wannierberri.w90files.soc import SOC
         z8 = np.exp(1j * np.pi / 4) ** np.arange(4)
-        npa = 0
-        for s in ftable.dump_states(st):
+        npa, same_c, same_p, maxdefect = 0, 0, 0, 0.0
+        for s in O.sorted_states(st, lambda s: (s["m"], s["n"])):
             npa += 1
-            th, ph = s["m"] * np.pi / 2, s["n"] * np.pi / 2
-            rep.case(("pauli", s["m"], s["n"]))
-            C = SOC.get_C_ss(theta=th, phi=ph)
-            expC = np.array([[np.dot(np.array(s["C2"][i][j], dtype=float), z8) / 2 for j in range(2)] for i in range(2)])
-            if np.max(np.abs(C - expC)) > 1e-12:
-                rep.violation("SOC.get_C_ss", dict(m=s["m"], n=s["n"], expected=O._c(expC), got=O._c(C)))
-            P = SOC.get_pauli_rotated(theta=th, phi=ph)
-            expP = np.transpose(np.array([W.tla_mat(s["P"][c]) for c in range(3)]), (1, 2, 0))
-            if np.max(np.abs(P - expP)) > 1e-12:
-                rep.violation("SOC.get_pauli_rotated", dict(m=s["m"], n=s["n"], expected=O._c(expP), got=O._c(P)))
+            m, n = s["m"], s["n"]
+            rep.case(("pauli", m, n))
+            ok, P = W.guarded(rep, "SOC.get_pauli_rotated", dict(m=m, n=n), W.code_pauli, m, n)
+            if not ok:
+                continue
+            defect = W.pauli_defect(P, np.array(s["ax"], dtype=float))
+            maxdefect = max(maxdefect, defect)
+            if defect > 1e-12:
+                rep.violation("SOC.get_pauli_rotated:algebra", dict(m=m, n=n, axis=list(s["ax"]), defect=defect, got=O._c(P),
+                                                                   note="Pauli algebra / spin along the axis = diag(1, -1)"))
+            expP = np.array([W.tla_mat(s["P"][c]) for c in range(3)])
+            same_p += bool(np.max(np.abs(P - expP)) <= 1e-12)
+            C = W.private("SOC.get_C_ss", lambda: np.asarray(SOC.get_C_ss(theta=m * np.pi / 2, phi=n * np.pi / 2)))
+            if C is not None:
+                expC = np.array([[np.dot(np.array(s["C2"][i][j], dtype=float), z8) / 2 for j in range(2)] for i in range(2)])
+                same_c += bool(C.shape == expC.shape and np.max(np.abs(C - expC)) <= 1e-12)
             if npa == 2:
-                rep.sample(dict(config="c25_pauli", m=s["m"], n=s["n"], axis=list(s["ax"]), pauli_rotated=O._js(s["P"])))
+                rep.sample(dict(config="c25_pauli", m=m, n=n, axis=list(s["ax"]), pauli_rotated=O._js(s["P"])))
         if npa != 64:
             raise MachineryError(f"c25_pauli: {npa} states")
-    st0 = tlc.run_tlc("MC_SysAlgPauli.tla", pcfg(["UnrotatedSpinAlongAxis"]), "c25_pauli_v0", workers=2, coverage=False, timeout=600)
+        rep.part("c25_pauli_code", axes=npa, max_defect_of_the_codes_matrices=maxdefect, tolerance=1e-12,
+                 information_equal_to_the_specifications_choice=dict(get_pauli_rotated=same_p, get_C_ss=same_c))
+    st0 = O.run_tlc("MC_SysAlgPauli.tla", pcfg(["UnrotatedSpinAlongAxis"]), "c25_pauli_v0", workers=2, timeout=600)
     if not st0.get("violation"):
         raise MachineryError("sensitivity self-test failed: unrotated Pauli matrices accepted")
     rep.part("c25_pauli_unrotated", sensitivity_violation=st0["violation"][1])
@@ -284,76 +396,155 @@ def check_c25(rep, thorough):
 
     # ---- code -> spec
     recs = []
-    nrec = 240 if thorough else 30
+    nrec = 240 if thorough else 16
     ks = [(0, 0, 0), (1, 2, 0), (3, 1, 0), (2, 2, 0)]
-    for i in range(nrec):
-        try:
-            kind = i % 4
-            if kind == 0:
-                rec, views, out = RND.rec_doublespin(rng, RND.rand_sys(rng, nw=rng.choice([1, 2, 3])))
-                dv = W.diff_views(out["cen"], views)
-                if dv:
-                    rep.violation("System_R.double_spin:shifts", dict(record=rec, differences=dv))
-                recs.append(rec)
-            elif kind == 3:
-                m, n = rng.randint(0, 7), rng.randint(0, 7)
-                P = RND.exact_pauli_rot(m, n)
-                recs.append(dict(fn="pauli", m=m, n=n, P=[W.mat_json(P[c]) for c in range(3)]))
-            else:
-                nw = rng.choice([1, 2])
-                up = RND.rand_sys(rng, nw=nw, with_x=False)
-                dn = RND.rand_sys(rng, nw=nw, with_x=False)
-                socdata = RND.rand_soc_data(rng, nw) if kind == 2 else None
-                m, n, al = rng.randint(0, 3), rng.randint(0, 3), rng.choice([1, 2, -1])
-                rec, soc, a = RND.rec_soc_hk(rng, up, dn, socdata, m, n, al, ks)
-                recs.append(rec)
-                if socdata is not None:
-                    rec2, views, out, plain = RND.rec_toplain(soc, a)
-                    recs.append(rec2)
-                    rep.case(("rec", "toplain", i))
-            rep.case(("rec", recs[-1]["fn"], i))
-        except W.NonIntegral as ex:
-            rep.violation("C25:non-integral", dict(index=i, error=str(ex)))
     site = {"doublespin": "System_R.double_spin", "soc_hk": "Data_K_soc.HH_K", "toplain": "SystemSOC.get_system_R", "pauli": "SOC.get_pauli_rotated"}
+    for i in range(nrec):
+        kind = i % 4
+        var = W.variant_of(("c25rec", i))
+        if kind == 0:
+            a = RND.rand_sys(rng, nw=rng.choice([1, 2, 3]))
+            val = _try_record(rep, site["doublespin"], dict(sys=W.sys_json(a), index=i), RND.rec_doublespin, rng, a, var=var)
+            if val is None:
+                continue
+            rec, views, out, okpair = val
+            if okpair is False:
+                rep.violation("System_R.double_spin:SS", dict(record=rec, note="SS(R=0) is not a pairing of every function with one partner"))
+            dv = W.diff_views(out["cen"], views, only=("cen_red",))
+            if dv:
+                rep.violation("System_R.double_spin:shifts", dict(record=rec, differences=dv))
+            recs.append(rec)
+        elif kind == 3:
+            m, n = rng.randint(0, 7), rng.randint(0, 7)
+            P = _try_record(rep, site["pauli"], dict(m=m, n=n), RND.exact_pauli_rot, m, n)
+            if P is None:
+                continue
+            recs.append(dict(fn="pauli", m=m, n=n, P=[W.mat_json(P[c]) for c in range(3)]))
+        else:
+            nw = rng.choice([1, 2])
+            nspin = 1 if rng.random() < 0.3 else 2
+            up = RND.rand_sys(rng, nw=nw, with_x=False)
+            dn = RND.rand_sys(rng, nw=nw, with_x=False)
+            socdata = RND.rand_soc_data(rng, nw) if kind == 2 else None
+            m, n, al = rng.randint(0, 3), rng.randint(0, 3), rng.choice([1, 2, -1])
+            val = _try_record(rep, site["soc_hk"], dict(index=i, nspin=nspin, up=W.sys_json(up), dn=W.sys_json(dn)), RND.rec_soc_hk, rng, up, dn,
+                              socdata, m, n, al, ks, nspin=nspin, var=var, degrees=bool(var["h"] & 1))
+            if val is None:
+                continue
+            rec, soc, a = val
+            recs.append(rec)
+            if socdata is not None:
+                val = _try_record(rep, site["toplain"], dict(index=i, nspin=nspin, soc=W.soc_json(a)), RND.rec_toplain, soc, a)
+                if val is not None:
+                    recs.append(val[0])
+                    rep.case(("rec", "toplain", i))
+        rep.case(("rec", recs[-1]["fn"], i))
     _validate(rep, recs, "c25", lambda r: site[r["fn"]])
-    _selftest(rep, next(r for r in recs if r["fn"] == "soc_hk"), lambda r: _flip(r["hk"][1][0][0]), "c25", "equals_spec")
+    v0 = _try_record(rep, site["soc_hk"], dict(selftest=True), RND.rec_soc_hk, rng, _fixed_sys(1, nw=1, with_x=False), _fixed_sys(2, nw=1, with_x=False),
+                     RND.rand_soc_data(random.Random(77), 1), 1, 1, 1, ks)
+    _selftest(rep, None if v0 is None else v0[0], lambda r: _flip(r["hk"][1][0][0]), "c25", "equals_spec")
 
-    # ---- numeric only
-    from wannierberri.w90files.soc import SOC
+    # ---- numeric (deciding)
     nprng = np.random.RandomState(seed() + 2525)
     maxdev = 0.0
     nn = 2000 if thorough else 200
     for _ in range(nn):
         th, ph = nprng.rand() * 2 * np.pi, nprng.rand() * 4 * np.pi
-        P = SOC.get_pauli_rotated(theta=th, phi=ph)
-        ax = np.array([np.sin(th) * np.cos(ph), np.sin(th) * np.sin(ph), np.cos(th)])
-        dev = np.max(np.abs(np.einsum("ijc,c->ij", P, ax) - np.diag([1, -1])))
-        for a in range(3):
-            for b in range(3):
-                rhs = (a == b) * np.eye(2) + 1j * np.einsum("c,ijc->ij", LEVI[a, b], P)
-                dev = max(dev, np.max(np.abs(P[:, :, a] @ P[:, :, b] - rhs)))
+        ok, P = W.guarded(rep, "SOC.get_pauli_rotated:numeric", dict(theta=th, phi=ph), W.code_pauli, None, None, th, ph)
+        if not ok:
+            break
+        dev = W.pauli_defect(P, np.array([np.sin(th) * np.cos(ph), np.sin(th) * np.sin(ph), np.cos(th)]))
         maxdev = max(maxdev, dev)
         if dev > 1e-9:
             rep.violation("SOC.get_pauli_rotated:numeric", dict(theta=th, phi=ph, deviation=float(dev)))
-    # random non-integer up/down systems at random k: spectrum of the SOC-free SystemSOC = union of the two spectra
+    # random non-integer up/down systems at random k: spectrum of the SOC-free SystemSOC = union of the two spectra (one / two spin channels)
     n2, dev2 = (40 if thorough else 6), 0.0
-    for _ in range(n2):
+    for it in range(n2):
         nw = rng.choice([1, 2, 3])
+        nspin = 1 if it % 3 == 2 else 2
+        var = W.variant_of(("c25num", it))
         up, dn = RND.rand_sys(rng, nw=nw, with_x=False), RND.rand_sys(rng, nw=nw, with_x=False)
+        if nspin == 1:
+            dn = up
         ju, jd = W.sys_json(up), W.sys_json(dn)
-        for a_, f in ((up, 0.37), (dn, 0.61)):
+        for a_, f in ((up, 0.37), (dn, 0.61)) if nspin == 2 else ((up, 0.37),):
             for R in a_["rs"]:
                 a_["H"][R] = a_["H"][R] * f
-        soc, _ = RND.make_real_soc(up, dn)
         k4 = [tuple(4 * nprng.rand(3))]
-        e = np.sort(np.array(W.data_k_list(soc, k4).E_K)[0])
-        eu = np.array(W.data_k_list(W.build(up), k4).E_K)[0]
-        ed = np.array(W.data_k_list(W.build(dn), k4).E_K)[0]
+        detail = dict(up=ju, dn=jd, scale=[0.37, 0.61], nspin=nspin, k=[x / 4 for x in k4[0]])
+
+        def spectra():
+            soc, _ = RND.make_real_soc(up, dn, nspin=nspin, var=var)
+            bkw = dict(periodic=var["periodic"], lattice=var["lattice"])
+            return (np.sort(W.real_ek(soc, k4)[0]), W.real_ek(W.build(up, **bkw), k4)[0], W.real_ek(W.build(dn, **bkw), k4)[0])
+        ok, val = W.guarded(rep, "SystemSOC:union_of_spectra:numeric", detail, spectra)
+        if not ok:
+            continue
+        e, eu, ed = val
         d = float(np.max(np.abs(e - np.sort(np.concatenate([eu, ed])))))
         dev2 = max(dev2, d)
         if d > 1e-9:
-            rep.violation("SystemSOC:union_of_spectra:numeric", dict(up=ju, dn=jd, scale=[0.37, 0.61], k=[x / 4 for x in k4[0]], deviation=d))
-    rep.part("numeric_only", random_axes=nn, max_deviation=float(maxdev), tolerance=1e-9, random_soc_free_systems=n2, max_deviation_spectra=dev2)
+            rep.violation("SystemSOC:union_of_spectra:numeric", dict(detail, deviation=d))
+    # random angles, non-integer alpha, non-trivial overlap, degrees: H(k) of Data_K_soc = H(k) of get_system_R(); Ham_SOC linear in alpha; SS
+    n3, dev3 = (40 if thorough else 8), 0.0
+    for it in range(n3):
+        nw = rng.choice([1, 2])
+        nspin = 1 if it % 4 == 3 else 2
+        var = W.variant_of(("c25num3", it))
+        up, dn = RND.rand_sys(rng, nw=nw, with_x=False), RND.rand_sys(rng, nw=nw, with_x=False)
+        rsS, D = RND.rand_soc_data(rng, nw)
+        th, ph, al = nprng.rand() * np.pi, nprng.rand() * 2 * np.pi, float(0.1 + nprng.rand())
+        ov = {R: np.zeros((nw, nw), dtype=complex) for R in rsS}
+        for R in rsS:
+            ov[R] += (nprng.randn(nw, nw) + 1j * nprng.randn(nw, nw)) * 0.2
+        ov[(0, 0, 0)] += np.eye(nw)
+        k4 = [tuple(4 * nprng.rand(3)), (1, 2, 0)]
+        deg = bool(it % 2)
+        detail = dict(up=W.sys_json(up), dn=W.sys_json(dn), nspin=nspin, theta=th, phi=ph, alpha_soc=al, degrees=deg, k=[[x / 4 for x in k] for k in k4])
+
+        def soc_case():
+            bkw = dict(periodic=var["periodic"], lattice=var["lattice"])
+            a = dict(up=up, dn=up if nspin == 1 else dn, rsS=rsS, D=W.nspin1_D(D) if nspin == 1 else D, al=1)
+            out = {}
+            for label, alpha in (("one", 1.0), ("al", al)):
+                soc = W.make_soc(W.build(up, **bkw), None if nspin == 1 else W.build(dn, **bkw))
+                hs, ss = W.set_soc(soc, a, nspin=nspin, degrees=deg, overlap=ov if nspin == 2 else None, theta=th, phi=ph, alpha=alpha)
+                out[label] = (soc, hs, ss)
+            soc, hs, ss = out["al"]
+            with quiet(), warnings.catch_warnings():
+                warnings.simplefilter("ignore")
+                plain = soc.get_system_R()
+            return out["one"][1], hs, ss, W.real_hk(soc, k4), W.real_hk(plain, k4), [tuple(int(x) for x in R) for R in soc.rvec.iRvec], W.code_pauli(theta=th, phi=ph)
+        ok, val = W.guarded(rep, "SystemSOC.get_system_R:numeric", detail, soc_case)
+        if not ok:
+            continue
+        hs1, hs, ss, hk_soc, hk_plain, rs, P = val
+        d = float(np.max(np.abs(hk_soc - hk_plain))) if hk_soc.shape == hk_plain.shape else float("inf")
+        if d > 1e-9:
+            rep.violation("SystemSOC.get_system_R:same_hamiltonian:numeric", dict(detail, deviation=d))
+        dherm = float(np.max(np.abs(hk_soc - hk_soc.conj().transpose(0, 2, 1))))
+        if dherm > 1e-9:
+            rep.violation("Data_K_soc.HH_K:hermitian:numeric", dict(detail, deviation=dherm))
+        dlin = float(np.max(np.abs(hs - al * hs1))) if hs is not None and hs1 is not None else 0.0
+        if dlin > 1e-9:
+            rep.violation("SystemSOC.set_soc_axis:alpha_soc:numeric", dict(detail, deviation=dlin))
+        dss = 0.0
+        if ss is not None:
+            exp = np.zeros_like(ss)
+            i0 = rs.index((0, 0, 0))
+            for mm in range(nw):
+                exp[i0, 2 * mm, 2 * mm, :], exp[i0, 2 * mm + 1, 2 * mm + 1, :] = P[:, 0, 0], P[:, 1, 1]
+            for iR, R in enumerate(rs):
+                o, om = (ov[R], ov[tuple(-x for x in R)]) if nspin == 2 else ((np.eye(nw), np.eye(nw)) if iR == i0 else (np.zeros((nw, nw)), np.zeros((nw, nw))))
+                exp[iR, 0::2, 1::2, :] = o[:, :, None] * P[None, None, :, 0, 1]
+                exp[iR, 1::2, 0::2, :] = om.conj().T[:, :, None] * P[None, None, :, 1, 0]
+            dss = float(np.max(np.abs(ss - exp)))
+            if dss > 1e-9:
+                rep.violation("SystemSOC.set_soc_axis:SS:numeric", dict(detail, deviation=dss))
+        dev3 = max(dev3, d, dherm, dlin, dss)
+        rep.case(("num3", it))
+    rep.part("numeric_deciding", random_axes=nn, max_deviation=float(maxdev), tolerance=1e-9, random_soc_free_systems=n2, max_deviation_spectra=dev2,
+             random_soc_systems=n3, max_deviation_soc=dev3)
     return rep.finish()
 
 
@@ -361,12 +552,14 @@ def check_c25(rep, thorough):
 def check_c26(rep, thorough):
     rng = random.Random(seed() * 7919 + 26)
     w = _workers(thorough)
-    rep.rule("TLC enumerates pairs (base system, partner system: other centres, other R-set, with/without the second matrix) and alpha = a/den; a case = "
-             "one TLC state replayed on SystemInterpolator(s0, s1).interpolate(alpha) with exact projection (Ham, AA, R-set, centres in all three "
-             "places the code keeps them) and H(k); plus seeded random recorded calls validated by TLC")
-    rep.assume("all amplitudes are multiples of den, so every interpolated value is an integer (named precondition InterpExact)")
-    cfgs = [("c26_interp", dict(OPS='{"Interpolate"}', NWS="{1, 2}" if thorough else "{2}", SC=2, DEN=2, WITHX="{FALSE, TRUE}", MAXHOPS=1, NEPS=1,
-                                NCEN=2 if thorough else 1, KDIRS=2 if thorough else 1))]
+    rep.rule("TLC enumerates pairs (base system, partner system: other centres, other R-set, with/without the second matrix) and alpha = a/den "
+             "(a from -1 to den + 1); a case = one TLC state replayed on SystemInterpolator(s0, s1[, use_pointgroup]).interpolate(alpha) (for "
+             "half of the cases as the second call of the interpolator after spoiling its first result) with exact projection (Ham, AA as "
+             "functions of R, centres, derivative of H(k)) and H(k); plus seeded random recorded calls (also SystemInterpolatorSOC) validated by TLC")
+    rep.assume("all amplitudes are multiples of den, so every interpolated value is an integer (named precondition InterpExact); "
+               "SystemInterpolatorSOC is exercised through recorded calls and their H(k) only (its up/down sub-systems are not inspected)")
+    cfgs = [("c26_interp", dict(OPS='{"Interpolate"}', NWS="{1, 2}" if thorough else "{2}", SC=2, DEN=2, AEXT=1, WITHX="{FALSE, TRUE}", MAXHOPS=1 if thorough else 0,
+                                NEPS=1, NCEN=2, KDIRS=2 if thorough else 1))]
     if thorough:
         cfgs.append(("c26_interp_quarters", dict(OPS='{"Interpolate"}', NWS="{2}", SC=4, DEN=4, WITHX="{FALSE, TRUE}", MAXHOPS=1, NEPS=1, NCEN=1, KDIRS=1)))
         cfgs.append(("c26_interp_chain", dict(OPS='{"Interpolate", "Reorder"}', MAXLEN=2, NWS="{2}", SC=2, DEN=2, WITHX="{FALSE}", MAXHOPS=1, MAXHOPS2=0,
@@ -375,55 +568,84 @@ def check_c26(rep, thorough):
         st = O.run_ops(rep, name, w, **kw)
         if st:
             _replay_all(rep, st, "C26", name, ["base", "Interpolate"])
-    O.sensitivity(rep, "c26_intersect_rset", "LawInterpolate", w, OPS='{"Interpolate"}', NWS="{1}", SC=2, Variant='"intersect"')
+    O.sensitivity(rep, "c26_intersect_rset", "LawInterpolate", w, OPS='{"Interpolate"}', NWS="{1}", SC=2, NEPS=1, NCEN=1, Variant='"intersect"')
 
     recs = []
-    nrec = 300 if thorough else 30
-    for i in range(nrec):
-        den = rng.choice([2, 2, 4])
-        a = rng.randint(0, den)
-        nw = rng.choice([1, 2, 3])
-        same_cen = rng.random() < 0.5
+    nrec = 300 if thorough else 12
+    ks = [(0, 0, 0), (1, 2, 0), (3, 1, 0)]
+
+    def pair(rng, den, nw, same_cen):
         s0 = RND.rand_sys(rng, nw=nw, scale=den, cen_choices=(0, 4, 8))
         s1 = RND.rand_sys(rng, nw=nw, scale=den, cen_choices=(0, 4, 8))
         if same_cen:
             s1["cen"] = s0["cen"].copy()
         else:
             s1["cen"] = s0["cen"] + den * np.array([[rng.choice([0, 1]), rng.choice([0, -1]), 0] for _ in range(nw)])
-        try:
-            rec, views, out = RND.rec_interp(rng, s0, s1, a, den)
-        except W.NonIntegral as ex:
-            rep.violation("SystemInterpolator.interpolate:non-integral", dict(s0=W.sys_json(s0), s1=W.sys_json(s1), a=a, den=den, error=str(ex)))
+        return s0, s1
+    for i in range(nrec):
+        den = rng.choice([2, 2, 4])
+        a = rng.randint(-1, den + 1)
+        var = W.variant_of(("c26rec", i))
+        if i % 4 == 3:
+            val = _try_record(rep, "SystemInterpolatorSOC.interpolate", dict(index=i, a=a, den=den), RND.rec_interp_soc, rng, a, den, ks, var=var)
+            if val is not None:
+                recs.append(val[0])
+                rep.case(("rec", "interp_soc", i, a, den))
             continue
-        dv = W.diff_views(out["cen"], views)
+        s0, s1 = pair(rng, den, rng.choice([1, 2, 3]), rng.random() < 0.5)
+        upg = (1, 0, -1)[var["h"] % 3]
+        val = _try_record(rep, "SystemInterpolator.interpolate", dict(s0=W.sys_json(s0), s1=W.sys_json(s1), a=a, den=den, use_pointgroup=upg),
+                          RND.rec_interp, rng, s0, s1, a, den, var=var, use_pointgroup=upg, reuse=bool((var["h"] >> 2) & 1))
+        if val is None:
+            continue
+        rec, views, out = val
+        dv = W.diff_views(out["cen"], views, only=("cen_red",))
         if dv:
             rep.violation("SystemInterpolator.interpolate:centres_not_propagated", dict(record=rec, differences=dv))
         recs.append(rec)
         rep.case(("rec", "interp", i, a, den))
-    _validate(rep, recs, "c26", lambda r: "SystemInterpolator.interpolate")
-    _selftest(rep, next(r for r in recs if r["a"] == 0), lambda r: _flip(r["out"]["H"][0][0][0]), "c26", "equals_spec")
+    _validate(rep, recs, "c26", lambda r: "SystemInterpolatorSOC.interpolate" if r["fn"] == "interp_soc" else "SystemInterpolator.interpolate")
+    f0, f1 = _fixed_sys(11, nw=2, scale=2, cen_choices=(0, 4, 8)), _fixed_sys(12, nw=2, scale=2, cen_choices=(0, 4, 8))
+    f1["cen"] = f0["cen"].copy()
+    v0 = _try_record(rep, "SystemInterpolator.interpolate", dict(selftest=True), RND.rec_interp, rng, f0, f1, 0, 2)
+    _selftest(rep, None if v0 is None else v0[0], lambda r: _flip(r["out"]["H"][0][0][0]), "c26", "equals_spec")
 
-    # ---- numeric only: random alpha, affinity of matrices and of H(k)
+    # ---- numeric (deciding): random alpha (also outside [0, 1]), different centres: H(k), centres and the derivative of H(k)
     from wannierberri.system.interpolate import SystemInterpolator
     nprng = np.random.RandomState(seed() + 2626)
     nn, maxdev = (60 if thorough else 8), 0.0
-    for _ in range(nn):
+    for it in range(nn):
         nw = rng.choice([2, 3])
-        s0, s1 = RND.rand_sys(rng, nw=nw), RND.rand_sys(rng, nw=nw)
-        s1["cen"] = s0["cen"].copy()
-        with quiet(), warnings.catch_warnings():
-            warnings.simplefilter("ignore")
-            itp = SystemInterpolator(W.build(s0), W.build(s1))
-            al = float(nprng.rand())
-            r = itp.interpolate(al)
-        ks = [(1, 2, 0), (3, 3, 0)]
-        hk = W.real_hk(r, ks)
-        for i, k in enumerate(ks):
-            dev = np.max(np.abs(hk[i] - ((1 - al) * W.abs_hk(s0, k) + al * W.abs_hk(s1, k))))
-            maxdev = max(maxdev, float(dev))
-            if dev > 1e-9:
-                rep.violation("SystemInterpolator.interpolate:affine:numeric", dict(alpha=al, s0=W.sys_json(s0), s1=W.sys_json(s1), deviation=float(dev)))
-    rep.part("numeric_only", random_alpha_cases=nn, max_deviation=maxdev, tolerance=1e-9)
+        var = W.variant_of(("c26num", it))
+        s0, s1 = pair(rng, 1, nw, it % 2 == 0)
+        al = float(nprng.rand() * 1.6 - 0.3)
+        bkw = dict(periodic=var["periodic"], lattice=var["lattice"])
+        kq = [(1, 2, 0), (3, 3, 0)]
+        detail = dict(alpha=al, s0=W.sys_json(s0), s1=W.sys_json(s1), lattice=var["lattice"].tolist())
+
+        def one():
+            with quiet(), warnings.catch_warnings():
+                warnings.simplefilter("ignore")
+                r0, r1 = W.build(s0, **bkw), W.build(s1, **bkw)
+                r = SystemInterpolator(r0, r1).interpolate(al)
+            cen = np.asarray(r.wannier_centers_cart) @ np.linalg.inv(r.real_lattice) * W.CU
+            return W.real_hk(r, kq), cen, W.shifts_consistent(r, kq, periodic=var["periodic"])
+        ok, val = W.guarded(rep, "SystemInterpolator.interpolate:numeric", detail, one)
+        if not ok:
+            continue
+        hk, cen, dsh = val
+        dev = max(float(np.max(np.abs(hk[i] - ((1 - al) * W.abs_hk(s0, k) + al * W.abs_hk(s1, k))))) for i, k in enumerate(kq))
+        dcen = float(np.max(np.abs(cen - ((1 - al) * s0["cen"] + al * s1["cen"]))))
+        maxdev = max(maxdev, dev, dcen, dsh or 0.0)
+        rep.case(("num", it))
+        if dev > 1e-9:
+            rep.violation("SystemInterpolator.interpolate:affine:numeric", dict(detail, deviation=dev))
+        if dcen > 1e-9:
+            rep.violation("SystemInterpolator.interpolate:centres_affine:numeric", dict(detail, deviation=dcen))
+        if dsh is not None and dsh > 1e-8:
+            rep.violation("SystemInterpolator.interpolate:centres_not_propagated:numeric", dict(detail, deviation=dsh,
+                          note="derivative of H(k) of the result vs a system built from the result's matrices and centres"))
+    rep.part("numeric_deciding", random_alpha_cases=nn, max_deviation=maxdev, tolerance=1e-9)
     return rep.finish()
 
 
@@ -438,10 +660,7 @@ def _cap_violations(rep, cap=2):
     rep.violation = violation
 
 
-def check(pid, tier):
-    rep = Report(pid, tier, "model_checking")
-    _cap_violations(rep)
-    thorough = tier == "thorough"
+def _dispatch(rep, pid, thorough):
     if pid == "C05":
         return check_c05(rep, thorough)
     if pid == "C25":
@@ -455,3 +674,39 @@ def check(pid, tier):
         from . import _sysalg_corners as CO
         return CO.check_c33(rep, thorough)
     raise MachineryError(f"sysalg does not serve {pid}")
+
+
+class _Finish:
+    """rep.finish with the recorded skips attached"""
+
+    def __init__(self, rep):
+        self.rep, self.orig = rep, rep.finish
+
+    def __call__(self):
+        if W.SKIPPED:
+            self.rep.part("skipped_private", **{k.replace(" ", "_"): v for k, v in W.SKIPPED.items()})
+        t = os.times()
+        self.rep.part("cpu_seconds", python=round(t.user + t.system, 1), children_tlc=round(t.children_user + t.children_system, 1))
+        return self.orig()
+
+
+def check(pid, tier):
+    rep = Report(pid, tier, "model_checking")
+    _cap_violations(rep)
+    rep.finish = _Finish(rep)
+    O.scratch(pid)
+    W.SKIPPED.clear()
+    rc = None
+    try:
+        rc = _dispatch(rep, pid, tier == "thorough")
+        return rc
+    except Exception:
+        if rep.violations:                                        # never lose what was found before the harness stopped
+            traceback.print_exc()
+            print(f"NOTE property={pid}: the check stopped early (see the traceback); the violations collected so far are reported")
+            rc = rep.finish()
+            return rc
+        raise
+    finally:
+        if rc == 0:
+            O.scratch_cleanup()
